@@ -1,5 +1,5 @@
 /*UNIT
-{"props": ["C20"], "kind": "K5", "tier": "quick", "timeout": 600, "defines": ["ZSTD_VERIF_SEEKABLE_BUFF_SIZE=256"],
+{"props": ["C20"], "kind": "K5", "tier": "quick", "timeout": 600, "defines": ["ZSTD_VERIF_SEEKABLE_BUFF_SIZE=256"], "extra_src": ["stubs/mem_sampled.c"],
  "bounded": "staging buffers of ZSTD_seekable reduced from 128 KB to 256 bytes through a ZSTD_VERIF-guarded define (CBMC cannot carry the 2x128 KB aggregate); the loader's refill logic is parametric in that constant; number of frames, file content and I/O failures unbounded (loop contract)",
  "loop_contracts": true,
  "functions": ["ZSTD_seekable_loadSeekTable"],
@@ -25,6 +25,10 @@ static int stub_read(void* opaque, void* buffer, size_t n)
     BYTE* const b = (BYTE*)buffer;
     (void)opaque;
     __CPROVER_assert(n == 0 || __CPROVER_w_ok(buffer, n), "C20 load: read request stays inside the staging buffer");
+    /* refills inside the parsing loop: the unread tail was just moved to the front of the staging buffer,
+     * the new bytes must land right behind it (otherwise table entries are parsed out of phase) */
+    if (g_reads == 2) __CPROVER_assert(zstd_verif_ghost.memmove_calls >= 1 && buffer == (void*)((BYTE*)zstd_verif_ghost.memmove_last_dst + zstd_verif_ghost.memmove_last_len),
+                                       "C20 load: a refill appends directly behind the bytes carried over");
     /* deliver arbitrary file bytes: the first 16 are written explicitly (they are the ones parsed as
      * header/footer fields), the rest of the buffer is unconstrained already */
     if (n > 0) b[0] = nondet_vu8(); if (n > 1) b[1] = nondet_vu8(); if (n > 2) b[2] = nondet_vu8(); if (n > 3) b[3] = nondet_vu8();
